@@ -182,8 +182,8 @@ def guarded(fun, *args):
     '''('ok', value) | ('err', class) with a watchdog for the unbounded loop
     of hexVertices.'''
     from t4_geom_convert.Kernel.Volume.Lattice import LatticeError
-    old = signal.signal(signal.SIGALRM, _alarm)
-    signal.setitimer(signal.ITIMER_REAL, 2.0)
+    import common
+    old = common.arm_watchdog(_alarm, 2.0)   # CPU-time limit + wall-clock backstop
     tracing = COV is not None and COV_ON[0]
     if tracing:
         COV.__enter__()
@@ -204,8 +204,7 @@ def guarded(fun, *args):
     finally:
         if tracing:
             COV.__exit__()
-        signal.setitimer(signal.ITIMER_REAL, 0)
-        signal.signal(signal.SIGALRM, old)
+        common.disarm_watchdog(old)
 
 
 def _valarm(_signum, _frame):
@@ -390,8 +389,8 @@ def convert_watchdog(text, secs=30.0, trace=False):
     CellConversion.develop_lattice made on the way is recorded (run-time
     wrapper of props/c06.py) for tie:develophex."""
     from props import c06
-    old = signal.signal(signal.SIGALRM, _alarm)
-    signal.setitimer(signal.ITIMER_REAL, secs)
+    import common
+    old = common.arm_watchdog(_alarm, secs)   # CPU-time limit + wall-clock backstop
     tracing = COV is not None and trace
     try:
         with c06.spy_develop(DEVELOP_RECORDS):
@@ -400,8 +399,7 @@ def convert_watchdog(text, secs=30.0, trace=False):
                     return impl.convert(text, keep_stdout=False)
             return impl.convert(text, keep_stdout=False)
     finally:
-        signal.setitimer(signal.ITIMER_REAL, 0)
-        signal.signal(signal.SIGALRM, old)
+        common.disarm_watchdog(old)
 
 
 # ---- rendering ------------------------------------------------------------
